@@ -346,17 +346,17 @@ Proof.
   assert (ERRc : forall s k, Ext st s -> Ext st s /\ (forall v', @Err (option Z) k = Ok v' -> Collected s /\ Junk st s))
     by (intros s k X; split; [exact X | intros; discriminate]).
   destruct len1 as [l|], (starred nm).
-  - destruct (Z.eqb l 0); [exact Base|].
+  - 
     destruct (rec st (cname_of nm) None) as [s1 r] eqn:E1. destruct (Call1 s1 r eq_refl) as [I1 [X1 [J1c [I1c C1c]]]].
     destruct r as [o b|k e].
-    + destruct (obj_len (heap s1) o); cbn [fst snd].
+    + destruct (obj_length (heap s1) o); cbn [fst snd].
       * destruct (Z.eqb a l); [apply OKc; auto | apply ERRc; apply junk_ext; exact J1c].
       * apply ERRc. apply junk_ext. exact J1c.
     + destruct (is_singleton_err k); cbn [fst snd]; [apply OKc; auto | apply ERRc; exact X1].
-  - destruct (Z.eqb l 0); [exact Base|].
+  - 
     destruct (rec st (cname_of nm) None) as [s1 r] eqn:E1. destruct (Call1 s1 r eq_refl) as [I1 [X1 [J1c [I1c C1c]]]].
     destruct r as [o b|k e].
-    + destruct (obj_len (heap s1) o); cbn [fst snd]; [|apply ERRc; apply junk_ext; exact J1c].
+    + destruct (obj_length (heap s1) o); cbn [fst snd]; [|apply ERRc; apply junk_ext; exact J1c].
       destruct (rec (collect s1) (cname_of nm) (Some l)) as [s2 r2] eqn:E2.
       pose proof (HR (collect s1) (cname_of nm) (Some l) I1c) as [I2 _].
       pose proof (HE (collect s1) (cname_of nm) (Some l) I1c C1c) as X2.
@@ -371,7 +371,7 @@ Proof.
     + destruct (is_singleton_err k); cbn [fst snd]; [apply OKc; auto | apply ERRc; exact X1].
   - destruct (rec st (cname_of nm) None) as [s1 r] eqn:E1. destruct (Call1 s1 r eq_refl) as [I1 [X1 [J1c [I1c C1c]]]].
     destruct r as [o b|k e].
-    + destruct (obj_len (heap s1) o); cbn [fst snd]; [apply OKc; auto | apply ERRc; apply junk_ext; exact J1c].
+    + destruct (obj_length (heap s1) o); cbn [fst snd]; [apply OKc; auto | apply ERRc; apply junk_ext; exact J1c].
     + destruct (is_singleton_err k); cbn [fst snd]; [apply OKc; auto | apply ERRc; exact X1].
   - split; [apply ext_refl | intros; split; [exact C | apply junk_refl]].
 Qed.
